@@ -163,6 +163,7 @@ impl SampleBuffer {
             (SampleBufferValue::Bool(vec), Value::Bool(v)) => vec.extend(v),
             (SampleBufferValue::I64(vec), Value::I64(v)) => vec.extend(v),
             (SampleBufferValue::String(vec), Value::ScalarString(s)) => vec.push(s),
+            (SampleBufferValue::String(vec), Value::Strings(v)) => vec.extend(v),
             _ => panic!("Mismatched item type"),
         }
         self.len += 1;
